@@ -12,6 +12,7 @@ CHECKS="${*:-$PROP}"
 V="$(cd "$(dirname "$0")/.." && pwd)"
 export GOFLAGS=-mod=mod GOPROXY=off GOSUMDB=off GOTOOLCHAIN=local
 M="$SRC/MUTATION"
+[ -d "$M" ] || M="$SRC"      # re-validation from /verif/seeded/<name>
 [ -f "$M/patch.diff" ] && [ -f "$M/demo_test.go" ] || { echo "missing MUTATION/patch.diff or demo_test.go"; exit 2; }
 WT=/root/scratch/val-$NAME
 git -C /repo worktree remove --force "$WT" 2>/dev/null
@@ -37,9 +38,7 @@ for c in $CHECKS; do
   if [ $rc -eq 1 ]; then DET="$DET $c"; else MISS="$MISS $c"; fi
 done
 mkdir -p "$V/seeded/$NAME"
-cp "$M/patch.diff" "$V/seeded/$NAME/patch.diff"
-cp "$M/demo_test.go" "$V/seeded/$NAME/demo_test.go"
-[ -f "$M/meta.txt" ] && cp "$M/meta.txt" "$V/seeded/$NAME/agent_meta.txt"
+[ "$M" -ef "$V/seeded/$NAME" ] || { cp "$M/patch.diff" "$V/seeded/$NAME/patch.diff"; cp "$M/demo_test.go" "$V/seeded/$NAME/demo_test.go"; [ -f "$M/meta.txt" ] && cp "$M/meta.txt" "$V/seeded/$NAME/agent_meta.txt"; }
 python3 - "$V/seeded/$NAME/meta.json" "$PROP" "$D0" "$B" "$T" "$D1" "$DET" "$MISS" "$M/meta.txt" <<'EOF'
 import json,sys,os
 path,prop,d0,b,t,d1,det,miss,meta=sys.argv[1:10]
